@@ -129,17 +129,23 @@ Lemma dropped_panic_repaired :
   go_run 60 w = Some (OPanic [(1, false, Some 11); (3, false, Some 13)]%N, [ERecover (Some 4%N)]).
 Proof. split; vm_compute; reflexivity. Qed.
 
-Lemma callback_panic_witness :
+(* the former witness callback-panic-is-fatal: repaired, a panic that leaves a
+   function called back by native code unwinds through the native frame and the
+   caller recovers it; second tree: two VMs deep, the chain of the callback
+   (a recovered and an aborted record included) reaches Run before the panic of
+   the caller *)
+Lemma callback_panic_repaired :
   let w := mkfunc [IDeferFn [IRecover false] []; ICallback [IPanic 7] [(0, 3%N)]] [] in
-  vm_run 40 w = Some (OCbPanic [(7, false)]%N, []) /\
+  vm_run 40 w = Some (ONil, [ERecover (Some 7%N)]) /\
   go_run 40 w = Some (ONil, [ERecover (Some 7%N)]).
 Proof. split; vm_compute; reflexivity. Qed.
 
-Lemma frames_refine_spec_refuted : ~ frames_refine_spec.
-Proof.
-  intros H. destruct callback_panic_witness as [H1 H2].
-  specialize (H _ _ _ _ _ H1 H2). discriminate.
-Qed.
+Lemma callback_chain_repaired :
+  let w := mkfunc [IDeferFn [ICallback [ICallback [IDeferFn [IRecover false; IPanic 4] [(1, 8%N)]; IPanic 3] [(1, 9%N)]] []] [];
+                   IPanic 1] [(1, 12%N)] in
+  vm_run 80 w = Some (OPanic [(4, false, Some 8); (3, true, Some 9); (1, false, Some 12)]%N, [ERecover (Some 3%N)]) /\
+  go_run 80 w = Some (OPanic [(4, false, Some 8); (3, true, Some 9); (1, false, Some 12)]%N, [ERecover (Some 3%N)]).
+Proof. split; vm_compute; reflexivity. Qed.
 
 (* ------------------------------------------------------------------ *)
 (* Runs                                                                 *)
